@@ -569,21 +569,30 @@ class CodeBuilder:
         with self.indent("else:"):
             self.add_line("raise")
 
+    def get_dialect_cache_name(self, kind: str) -> str:
+        # a generic dataclass has a method per specialisation, and each of
+        # them needs dialect-specific variants of its own
+        name = f"__dialect_{self.format_name}_{kind}_cache"
+        if self.initial_type_args:
+            name += f"_{hash_type_args(self.initial_type_args)}"
+        return f"{name}__"
+
     def _add_unpack_method_with_dialect_lines(self, method_name: str) -> None:
         if self.decoder is not None:
             self.add_line("d = decoder(d)")
         unpacker_args = ", ".join(
             filter(None, ("cls", "d", self.get_unpack_method_flags()))
         )
-        cache_name = f"__dialect_{self.format_name}_unpacker_cache__"
+        cache_name = self.get_dialect_cache_name("unpacker")
         self.add_line(f"unpacker = cls.{cache_name}.get(dialect)")
         with self.indent("if unpacker is not None:"):
             self.add_line(f"return unpacker({unpacker_args})")
         if self.default_dialect:
             self.add_type_modules(self.default_dialect)
+        self.ensure_object_imported(self.initial_type_args, "__type_args")
         self.add_line(
             "CodeBuilder("
-            "cls,dialect=dialect,"
+            "cls,__type_args,dialect=dialect,"
             f"first_method='{method_name}',"
             "allow_postponed_evaluation=False,"
             f"format_name='{self.format_name}',"
@@ -604,7 +613,7 @@ class CodeBuilder:
         dialects_feature = self.is_code_generation_option_enabled(
             ADD_DIALECT_SUPPORT
         )
-        cache_name = f"__dialect_{self.format_name}_unpacker_cache__"
+        cache_name = self.get_dialect_cache_name("unpacker")
         if dialects_feature:
             with self.indent(f"if not '{cache_name}' in cls.__dict__:"):
                 self.add_line(f"cls.{cache_name} = {{}}")
@@ -1104,7 +1113,7 @@ class CodeBuilder:
         packer_args = ", ".join(
             filter(None, ("self", self.get_pack_method_flags()))
         )
-        cache_name = f"__dialect_{self.format_name}_packer_cache__"
+        cache_name = self.get_dialect_cache_name("packer")
         self.add_line(f"packer = self.__class__.{cache_name}.get(dialect)")
         self.add_line("if packer is not None:")
         if self.encoder is not None:
@@ -1115,9 +1124,10 @@ class CodeBuilder:
             self.add_line(return_statement.format(f"packer({packer_args})"))
         if self.default_dialect:
             self.add_type_modules(self.default_dialect)
+        self.ensure_object_imported(self.initial_type_args, "__type_args")
         self.add_line(
             "CodeBuilder("
-            "self.__class__,dialect=dialect,"
+            "self.__class__,__type_args,dialect=dialect,"
             f"first_method='{method_name}',"
             "allow_postponed_evaluation=False,"
             f"format_name='{self.format_name}',"
@@ -1163,7 +1173,7 @@ class CodeBuilder:
         dialects_feature = self.is_code_generation_option_enabled(
             ADD_DIALECT_SUPPORT
         )
-        cache_name = f"__dialect_{self.format_name}_packer_cache__"
+        cache_name = self.get_dialect_cache_name("packer")
         if dialects_feature:
             with self.indent(f"if not '{cache_name}' in cls.__dict__:"):
                 self.add_line(f"cls.{cache_name} = {{}}")
